@@ -44,6 +44,9 @@ func Run(id, tier string) int {
 		patterns = append(append([]string{}, patterns...), strings.Fields(extra)...)
 	}
 	prog, err := core.Load(dir, nil, patterns...)
+	if err == nil {
+		setInlineKeep(prog)
+	}
 	if err != nil {
 		// fail closed: a tree that does not load cannot be certified
 		fmt.Printf("ERROR: %v\n", err)
